@@ -16,6 +16,7 @@ content - which is what ScheduleIndependent says must hold.
 import collections
 import json
 import os
+import random
 import re
 import time
 
@@ -88,7 +89,9 @@ def select(ctx, t):
             world[(r["exp"], r["dir"])].append(r)
     typed, pool = {}, []
     for key in sorted(world):
-        recs = world[key]
+        # TLC prints records in a worker-dependent order: fix the order, then let VERIF_SEED pick the pool
+        recs = sorted(world[key], key=lambda r: (r["name"], r.get("prof", 0), r["hdr"], r["body"]))
+        random.Random(C.seed()).shuffle(recs)
         names = sorted({r["name"] for r in recs if r["name"].startswith(("CMSG_", "SMSG_"))})
         warden = [n for n in names if n.endswith("_WARDEN_DATA")]
         step = max(1, len(names) // t["typed"])
@@ -108,6 +111,7 @@ def select(ctx, t):
                 per_len["long"] += 1
                 chosen.append(r)
         pool.extend(chosen)
+    login.sort(key=lambda r: (r.get("lv", 0), r["dir"], r["name"], r.get("prof", 0), r["hdr"], r["body"]))
     return login + pool, typed
 
 
@@ -413,7 +417,7 @@ def selftest(tier):
     3. mutants of the specification (Take loses a byte; a Pending answer forgets the partial fill) must
        violate NoLoss in TLC."""
     t, ctx, records, typed, subjects, binary = prepare("quick", "c06")
-    t = dict(t, exh=6, sim=4, live_max=6)
+    t = dict(t, exh=6, sim=16, live_max=6)
     small = [r for r in records if r["cls"] <= 6][:60] + [r for r in records if r["cls"] > 40][:40]
     subj = build_subjects(small, t)
     wd = C.workdir(PROP + "-selftest")
